@@ -387,6 +387,17 @@ func execExitC18(c *Case, dir string) {
 	for n, content := range s.files {
 		os.WriteFile(filepath.Join(dir, n), []byte(content), 0644)
 	}
+	// half of the runs write to a file instead of the standard output (a refusal must not depend on where the output goes)
+	if r.Bool() {
+		switch c.Get("cmd") {
+		case "snps", "closest", "closest-n", "list", "topranking", "variants", "samvariants":
+			args = append(args, "-o", "{dir}/out.csv")
+			c.Tag("output-to-file")
+		case "toma":
+			args = append(args, "--fasta-out", "{dir}/out.fa")
+			c.Tag("output-to-file")
+		}
+	}
 	for i := range args {
 		args[i] = strings.ReplaceAll(args[i], "{dir}", dir)
 	}
